@@ -380,6 +380,18 @@ MODEL_PARAMS = {
 }
 MODELS = list(MODEL_PARAMS)
 
+# magnitude classes of the numbers a model carries: factor applied to every parameter (cycled), to the ranges and
+# to the fit error.  All factors have more significant digits than any fixed-decimal rounding keeps.
+MAGNITUDES = {
+    "order_one": {"params": [1.0], "prange": (0.0123456789, 0.912345678901), "lrange": (0.23456789012, 4.5678901234), "rmse": 0.0123456789012},
+    "tiny": {"params": [4.2713598264e-06, 8.6179234567e-09, 1.2345678912e-12, 3.3333333333333335e-07],
+             "prange": (1.2345678901234e-09, 9.8765432109876e-07), "lrange": (2.3456789012345e-08, 4.5678901234567e-06), "rmse": 1.2345678901234e-11},
+    "huge": {"params": [1.2345678901234e+06, 9.8765432109876e+11, 3.1415926535898e+09, 2.7182818284590e+07],
+             "prange": (1.0132512345678e+05, 9.8765432109876e+11), "lrange": (1.2345678901234e+06, 4.5678901234567e+09), "rmse": 1.2345678901234e+03},
+    "many_digits": {"params": [1.0 / 3.0, 2.0 / 7.0, 0.1 + 0.2, 1.0 / 9.0],
+                    "prange": (1.0 / 300.0, 2.0 / 3.0), "lrange": (1.0 / 7.0, 22.0 / 7.0), "rmse": 1.0 / 3000.0},
+}
+
 # layouts: (pressure, loading, branch argument / branch column, extra columns)
 def layout_data(layout, rep, rng):
     """Concrete data of a layout class. Values carry more than 8 decimals where the class allows,
@@ -563,9 +575,11 @@ class Builder:
         branch = ["ads", "des"][row["rep"] % 2]
         if how in ("constructed", "as_fitted"):
             f = (lambda x: numpy.float64(x)) if how == "as_fitted" else float
-            m = get_isotherm_model(name, parameters={k: f(v) for k, v in MODEL_PARAMS[name].items()},
-                                   pressure_range=(f(0.0123456789), f(0.912345678901)),
-                                   loading_range=(f(0.23456789012), f(4.5678901234)), rmse=f(0.0123456789012))
+            mag = MAGNITUDES[row.get("mag", "order_one") if row.get("mag", "na") != "na" else "order_one"]
+            fac = mag["params"]
+            m = get_isotherm_model(name, parameters={k: f(v * fac[i % len(fac)]) for i, (k, v) in enumerate(MODEL_PARAMS[name].items())},
+                                   pressure_range=tuple(f(x) for x in mag["prange"]),
+                                   loading_range=tuple(f(x) for x in mag["lrange"]), rmse=f(mag["rmse"]))
             if how == "as_fitted":
                 m.__init_parameters__(dict(kw))
             return pygaps.ModelIsotherm(model=m, branch=branch, **kw)
